@@ -460,8 +460,10 @@ func (w *inotify) handleEvent(inEvent *unix.InotifyEvent, buf *[65536]byte, offs
 			return Event{}, true
 		}
 
+		// EINVAL means the kernel already dropped the watch, which happens if
+		// the renamed path was deleted before we got around to this event.
 		err := w.remove(watch.path)
-		if err != nil && !errors.Is(err, ErrNonExistentWatch) {
+		if err != nil && !errors.Is(err, ErrNonExistentWatch) && !errors.Is(err, unix.EINVAL) {
 			if !w.sendError(err) {
 				return Event{}, false
 			}
